@@ -186,33 +186,43 @@ class _Quadrature(torch.autograd.Function):
             grad_xu = torch.dot(grad_ys.reshape(-1), fcn(xu, *params).reshape(-1)
                                 ).reshape(xu.shape) if ctx.xutensor else None
 
-            def new_fcn(x, *grad_y_params):
-                grad_ys = grad_y_params[0]
-                # not setting objparams and params because the params and objparams
-                # are still the same objects as the objects outside
-                with torch.enable_grad():
-                    f = fcn(x, *params)
-                dfdts = torch.autograd.grad(f, tensor_params,
-                                            grad_outputs=grad_ys,
-                                            retain_graph=True,
-                                            allow_unused=True,
-                                            create_graph=torch.is_grad_enabled())
-                # tensors that do not influence the integrand get a zero gradient
-                dfdts = convert_none_grads_to_zeros(dfdts, tensor_params)
-                return dfdts
+        def new_fcn(x, *grad_y_params):
+            grad_ys = grad_y_params[0]
+            # the integrand is evaluated on the tensors it is given (copies of
+            # the saved ones, see below) and differentiated w.r.t. those, so
+            # the object's tensors have to be replaced by them as well
+            tparams = grad_y_params[1:]
+            allparams1 = ctx.param_sep.reconstruct_params(tparams)
+            with torch.enable_grad(), fcn.useobjparams(allparams1[nparams:]):
+                f = fcn(x, *allparams1[:nparams])
+            dfdts = torch.autograd.grad(f, tparams,
+                                        grad_outputs=grad_ys,
+                                        retain_graph=True,
+                                        allow_unused=True,
+                                        create_graph=torch.is_grad_enabled())
+            # tensors that do not influence the integrand get a zero gradient
+            dfdts = convert_none_grads_to_zeros(dfdts, tparams)
+            return dfdts
 
-            # reconstruct grad_params
-            # listing tensor_params in the params of quad to make sure it gets
-            # the gradient calculated
-            if ntensor_params > 0:
-                dydts = quad(new_fcn, xl, xu, params=(grad_ys, *tensor_params),
-                             bck_options=ctx.bck_config, **ctx.bck_config)
+        # reconstruct grad_params
+        # the derivatives are taken w.r.t. fresh copies of the tensors so that
+        # they are partial derivatives: if the tensors depend on each other
+        # outside the integrand (e.g. two parameters computed from one tensor),
+        # differentiating w.r.t. the tensors themselves counts that dependence
+        # here and again when autograd propagates the returned gradients
+        if ntensor_params > 0:
+            if torch.is_grad_enabled():
+                tensor_params_copy = [p.clone().requires_grad_() for p in tensor_params]
             else:
-                dydts = []
-            dydns = [None for _ in range(ctx.param_sep.nnontensors())]
-            grad_params = ctx.param_sep.reconstruct_params(dydts, dydns)
+                tensor_params_copy = [p.detach().requires_grad_() for p in tensor_params]
+            dydts = quad(new_fcn, xl, xu, params=(grad_ys, *tensor_params_copy),
+                         bck_options=ctx.bck_config, **ctx.bck_config)
+        else:
+            dydts = []
+        dydns = [None for _ in range(ctx.param_sep.nnontensors())]
+        grad_params = ctx.param_sep.reconstruct_params(dydts, dydns)
 
-            return (None, grad_xl, grad_xu, None, None, None, None, None, *grad_params)
+        return (None, grad_xl, grad_xu, None, None, None, None, None, *grad_params)
 
 def _isinf(x):
     return torch.any(torch.isinf(x))
